@@ -196,7 +196,31 @@ def group_stream(chk):
                         expected += "[%s:%s]" % (f, t)
                         break
         inc = r.choice(chosen[1:])
-        src += '<include src="%s"/>' % spellings(r, main, inc, ".wxml")
+        # where the include stands (round 11, C13-11: an include that carries wx:elif / wx:else is merged into the preceding wx:if node); the data is
+        # empty, so `a` is falsy and exactly the include of `inc` is rendered; includes in branches that are not taken are dependencies all the same
+        isp = spellings(r, main, inc, ".wxml")
+        place = len(cases) % 8
+        if place == 1:
+            src += '<include wx:if="{{!a}}" src="%s"/>' % isp
+        elif place == 2:
+            src += '<v wx:if="{{a}}"/><include wx:else src="%s"/>' % isp
+        elif place == 3:
+            src += '<v wx:if="{{a}}"/><include wx:elif="{{!a}}" src="%s"/>' % isp
+        elif place == 4:
+            src += '<block wx:for="{{[1]}}"><include src="%s"/></block>' % isp
+        elif place == 5:
+            src += '<v><block><include src="%s"/></block></v>' % isp
+        elif place in (6, 7):
+            x1, x2 = r.choice(chosen[1:]), r.choice(chosen[1:])
+            exp_deps += [x1, x2]
+            if place == 6:
+                src += '<include wx:if="{{a}}" src="%s"/><include wx:elif="{{a}}" src="%s"/><include wx:else src="%s"/>' % (
+                    spellings(r, main, x1, ".wxml"), spellings(r, main, x2, ".wxml"), isp)
+            else:
+                src += '<block wx:if="{{a}}"><include src="%s"/></block><include wx:elif="{{!a}}" src="%s"/><include wx:else src="%s"/>' % (
+                    spellings(r, main, x1, ".wxml"), isp, spellings(r, main, x2, ".wxml"))
+        else:
+            src += '<include src="%s"/>' % isp
         exp_deps.append(inc)
         expected += "(%s:main)" % inc
         sp = r.choice(sorted(scripts))
